@@ -239,7 +239,7 @@ def split_sequences(ops):
     seqs, start = [], 0
     for i, l in enumerate(ops):
         parts = l.split()
-        if len(parts) >= 2 and parts[1] == "reset" and i > start:
+        if len(parts) >= 2 and parts[1] in ("reset", "newblock") and i > start:
             seqs.append((start, i))
             start = i
     if start < len(ops):
